@@ -419,6 +419,48 @@ class TenantWorld(object):
         st = Run(self, journal, baseline)
         return st.run()
 
+    def simplify(self, journal, test, deadline):
+        """
+        Per-event simplification after ddmin (each candidate is executed in a fresh fork by
+        `test`): drop tenants no remaining event mentions, then drop attached faults, edge-draw
+        mode, headroom and attempt numbers one event at a time, keeping a change only if the
+        same check still fails.
+        """
+        import time as _t
+        used = 0
+        j = copy.deepcopy(journal)
+        mentioned = set()
+        for e in j['events']:
+            if 'g' in e:
+                mentioned.add(e['g'])
+            for f in e.get('faults', ()):
+                if 'call' in f:
+                    mentioned.add(f['call']['g'])
+        dict_ids = set(j['tenants'][g]['bp'].get('dict_id') for g in mentioned if g in j['tenants'])
+        cand = copy.deepcopy(j)
+        cand['tenants'] = {g: t for g, t in j['tenants'].items()
+                           if g in mentioned or (t['bp'].get('dict_id') is not None and t['bp'].get('dict_id') in dict_ids)}
+        if len(cand['tenants']) < len(j['tenants']) and _t.monotonic() < deadline:
+            used += 1
+            if test(cand):
+                j = cand
+        for k in range(len(j['events'])):
+            for key in ('faults', 'rng', 'headroom', 'budget', 'attempt', 'dup'):
+                if _t.monotonic() > deadline or used > 60:
+                    return j, used
+                e = j['events'][k]
+                if key not in e or (key == 'faults' and not e['faults']):
+                    continue
+                cand = copy.deepcopy(j)
+                if key == 'faults':
+                    cand['events'][k]['faults'] = []
+                else:
+                    del cand['events'][k][key]
+                used += 1
+                if test(cand):
+                    j = cand
+        return j, used
+
     def audit(self, journal, job):
         """
         R3: recompute one call's fresh-instance outcome in a process that has executed nothing
